@@ -118,7 +118,7 @@ func C16(r *vf.Run) {
 		return
 	}
 	chunks := r.N(64, 3200)
-	vf.Parallel(runtime.NumCPU(), chunks, func(w, ci int) {
+	r.Parallel(runtime.NumCPU(), chunks, func(w, ci int) {
 		g := r.Rand("hist").Fork(uint64(ci))
 		cells := map[string]int64{}
 		for k := 0; k < 32 && !r.TooMany(); k++ {
@@ -260,7 +260,7 @@ func C19(r *vf.Run) {
 	r.Assume = []string{"tracked flags and listing lines after a refused call are not among the observables the statement enumerates"}
 	if r.Phase("capacity") {
 		chunks := r.N(32, 1600)
-		vf.Parallel(runtime.NumCPU(), chunks, func(w, ci int) {
+		r.Parallel(runtime.NumCPU(), chunks, func(w, ci int) {
 			g := r.Rand("cap").Fork(uint64(ci))
 			cells := map[string]int64{}
 			for k := 0; k < 24 && !r.TooMany(); k++ {
@@ -371,7 +371,7 @@ func C19(r *vf.Run) {
 	}
 	if r.Phase("nil-target") {
 		chunks := r.N(32, 1600)
-		vf.Parallel(runtime.NumCPU(), chunks, func(w, ci int) {
+		r.Parallel(runtime.NumCPU(), chunks, func(w, ci int) {
 			g := r.Rand("nil").Fork(uint64(ci))
 			cells := map[string]int64{}
 			for k := 0; k < 100 && !r.TooMany(); k++ {
